@@ -58,9 +58,9 @@ h("c10_decoder_total_q", "fdl_telegram.rs", TG, ["C10"], panic_props=["C10", "C0
   bounds="every byte string of length 0..=32; unwind 34",
   obligation="no panic; Ok((t,n)) => 1<=n<=len, n==t.telegram_len(), payload inside the consumed frame; None => input shorter than the announced frame")
 h("c10_decoder_total_t", "fdl_telegram.rs", TG, ["C10"], panic_props=["C10", "C05"], tier="thorough", timeout_s=3000, mem_gb=12, weight=2, functions=DEC,
-  bounds="every byte string of length 0..=262 (the largest frame is 255 bytes); unwind 104", obligation="as c10_decoder_total_q")
+  bounds="every byte string of length 0..=262 (the largest frame is 255 bytes); unwind 264", obligation="as c10_decoder_total_q")
 h("c10_decoder_accept_q", "fdl_telegram.rs", TG, ["C10"], timeout_s=600, functions=DEC,
-  bounds="every byte string of length 0..=24; unwind 10",
+  bounds="every byte string of length 0..=24; unwind 26",
   obligation="Ok(Data) => SD in {SD1,SD2,SD3}; SD2 => LE==LEr>=3 and repeated SD2; FCS == sum(DA..DU); ED; decoded addresses/SAP presence == address octets")
 h("c10_decoder_accept_t", "fdl_telegram.rs", TG, ["C10"], tier="thorough", timeout_s=3000, mem_gb=12, weight=2, functions=DEC,
   bounds="every byte string of length 0..=80; unwind 82", obligation="as c10_decoder_accept_q")
